@@ -61,6 +61,11 @@ class ChannelItem(EFLRItem, DimensionedItem):
 
         # need the attribute defined for representation code check
         self._cast_dtype: Union[numpy_dtype_type, None] = None
+        self._cast_dtype_from_data = False  # True if cast dtype was not specified by the user, but taken from data
+
+        # values of dimension and element limit which were not specified by the user, but determined from data
+        self._dimension_from_data: Union[list[int], None] = None
+        self._element_limit_from_data: Union[list[int], None] = None
 
         self.long_name = EFLROrTextAttribute('long_name', object_class=LongNameSet)
         self.properties = PropertiesAttribute('properties')
@@ -96,11 +101,18 @@ class ChannelItem(EFLRItem, DimensionedItem):
 
         return self._cast_dtype
 
+    @property
+    def cast_dtype_from_data(self) -> bool:
+        """True if the cast dtype has not been specified by the user, but taken over from the (last used) data."""
+
+        return self._cast_dtype_from_data
+
     @cast_dtype.setter
     def cast_dtype(self, dt: Union[numpy_dtype_type, None]) -> None:
         """Set or remove channel cast dtype."""
 
         self._set_cast_dtype(dt)
+        self._cast_dtype_from_data = False
 
     def _set_cast_dtype(self, dt: Union[numpy_dtype_type, None]) -> None:
         """Check that the provided cast dtype is acceptable and set it in the Channel."""
@@ -123,12 +135,20 @@ class ChannelItem(EFLRItem, DimensionedItem):
 
         dim = list(sub_data.shape[1:]) or [1]
 
+        # forget what was determined from the previously used data (unless changed by the user in the meantime)
+        if self.dimension.value is self._dimension_from_data:
+            self.dimension._value = None
+        if self.element_limit.value is self._element_limit_from_data:
+            self.element_limit._value = None
+        self._dimension_from_data = self._element_limit_from_data = None
+
         if self.dimension.value != dim:
             if self.dimension.value:
                 raise RuntimeError(f"Previously defined dimension of {self}: {self.dimension.value} "
                                    f"does not match the dimension from data: {dim}")
             logger.debug(f"Setting dimension of {self} to {dim}")
             self.dimension.value = dim
+            self._dimension_from_data = self.dimension.value
 
         if self.element_limit.value != dim:
             if self.element_limit.value:  # was specified and is not exactly equal to dim
@@ -140,6 +160,7 @@ class ChannelItem(EFLRItem, DimensionedItem):
                 # only set the element limit if it was None before
                 logger.debug(f"Setting element limit of {self} to {dim}")
                 self.element_limit.value = dim
+                self._element_limit_from_data = self.element_limit.value
 
     @staticmethod
     def _compare_element_limit_vs_dimension(el: list[int], dim: list[int]) -> bool:
@@ -169,12 +190,14 @@ class ChannelItem(EFLRItem, DimensionedItem):
 
         dt = sub_data.dtype
 
-        if self.cast_dtype is not None:
+        if self.cast_dtype is not None and not self._cast_dtype_from_data:
             if dt != self.cast_dtype:
                 logger.warning(f"Data will be cast from {dt} to {self.cast_dtype}")
             return
 
+        # no cast dtype specified by the user: the dtype of the currently used data it is
         self._set_cast_dtype(dt)
+        self._cast_dtype_from_data = True
 
     def _run_checks_and_set_defaults(self) -> None:
         """Set up default values of ChannelItem parameters if not explicitly set previously."""
